@@ -12,7 +12,7 @@ from .. import kernel as K
 ID = "C01"
 ENGINE = "iosim"
 LEVEL = "exploration"
-BUDGET = {"quick": 75, "thorough": 1200}
+BUDGET = {"quick": 60, "thorough": 1200}
 RUN_TIMEOUT = 90
 SHRINK_TIMEOUT = 90
 SELFTEST_PAIRS = {"quick": 16, "thorough": 40}
@@ -20,7 +20,7 @@ BUDGET_CLASSES = ("hang",)
 CPU_FLOOR_S = 30.0
 AS_CAP = 4 << 30
 PROBES = ["entry_direct", "entry_read_file", "entry_cli", "entry_archive_zip", "entry_archive_tar", "entry_attachment", "misdirected_route", "alias_route",
-          "s2_member_fault", "accepted_after_fault", "rejected_with_family_error", "cli_exit_1", "cli_exit_0", "nonzero_start_position", "fault_free", "cli_special_input_missing", "cli_special_input_directory", "cli_special_input_empty"]
+          "s2_member_fault", "s2_ole_stream_fault", "accepted_after_fault", "rejected_with_family_error", "cli_exit_1", "cli_exit_0", "nonzero_start_position", "fault_free", "cli_special_input_missing", "cli_special_input_directory", "cli_special_input_empty"]
 RULE = ("one run = one corpus document (all 21 extractors; fixtures + stdlib-written seeds) with 0-3 storage / member-read faults, one entry point "
         "(direct, read_file, CLI, ZIP/TAR member, e-mail attachment), one route (own extension, alias, foreign extension) and a stream start "
         "position; distinct non-trivial = (extractor route, entry, first fault kind, outcome class, function-set signature) where a fault was applied")
@@ -84,9 +84,16 @@ def run_case(case: dict) -> dict:
         probes["s2_member_fault"] = 1
     if route != own:
         probes["alias_route" if any(own in ([k] + v) and route in ([k] + v) for k, v in iosim.ALIASES.items()) else "misdirected_route"] = 1
+    if getattr(out, "ole_fired", None):
+        probes["s2_ole_stream_fault"] = 1
     if case.get("pos") and entry == "direct":
         probes["nonzero_start_position"] = 1
-    kind0 = (case["ops"][0][0] + (":" + case["ops"][0][2][0] if case["ops"][0][0] == "zip" else "")) if case["ops"] else "none"
+    if case.get("ole"):
+        kind0 = "ole:" + case["ole"][1][0]
+    elif case["ops"]:
+        kind0 = case["ops"][0][0] + (":" + case["ops"][0][2][0] if case["ops"][0][0] == "zip" else "")
+    else:
+        kind0 = "none"
     outcome = "ok"
     if case.get("special"):
         probes["cli_special_input_" + case["special"]] = 1
@@ -115,7 +122,7 @@ def run_case(case: dict) -> dict:
     else:
         if out.exc is None:
             outcome = "accepted" if out.results else "accepted_empty"
-            if case["ops"] and out.results:
+            if (case["ops"] or case.get("ole")) and out.results:
                 probes["accepted_after_fault"] = 1
         elif isinstance(out.exc, ExtractionError):
             outcome = "family:" + type(out.exc).__name__
@@ -126,7 +133,7 @@ def run_case(case: dict) -> dict:
                          "detail": f"{type(out.exc).__name__}: {str(out.exc)[:200]!r} escaped {out.where} for a {own} document routed as .{route} "
                                    f"(entry {entry}, ops {case['ops'][:2]})"})
     log.ev("outcome", entry, route, outcome, len(out.results))
-    nontriv = [f"{route}|{entry}|{kind0}|{outcome.split(':')[0]}|{fsig}"] if case["ops"] else []
+    nontriv = [f"{route}|{entry}|{kind0}|{outcome.split(':')[0]}|{fsig}"] if (case["ops"] or case.get("ole")) else []
     faults = {}
     for op in case["ops"]:
         k = op[0] + (":" + op[2][0] + ((":" + op[2][1][0]) if op[2][0] == "edit" else "") if op[0] in ("zip", "tar") else "")
@@ -137,6 +144,8 @@ def run_case(case: dict) -> dict:
 
 def shrink(case):
     ops = case["ops"]
+    if case.get("ole"):
+        yield dict(case, ole=None)
     for i in range(len(ops)):
         yield dict(case, ops=ops[:i] + ops[i + 1:])
     if case["entry"] != "direct" and case["entry"] != "cli":
